@@ -35,21 +35,52 @@ def gen_cases(run: Run, n: int):
             continue
         vals, nodes = B.harvest_names(m)
         pool = [v for v in vals if v not in ins and v not in outs] + nodes + ["Introduce_0_outputs_0", "Argument_0_arg", "Add_0", ""]
+        nested_inline = [v for v in vals if "Inline_" in v and ("branch__" in v or "body__" in v) and v not in ins and v not in outs]
         ins2, outs2 = {}, {}
         for k, v in ins.items():
             ins2[rng.choice(pool) if rng.random() < 0.4 else k] = v
         for k, v in outs.items():
-            outs2[rng.choice(pool) if rng.random() < 0.5 else k] = v
+            if nested_inline and rng.random() < 0.35:
+                outs2[rng.choice(nested_inline)] = v      # a name reserved for an internal value of an inlined block inside a body
+            else:
+                outs2[rng.choice(pool) if rng.random() < 0.5 else k] = v
         if not outs2:
             outs2 = outs
         cases.append(B.Case(ins2, outs2, drop, {"names": "adversarial", "errors_as_class": True}))
     return cases, g.hist
 
 
+def mixed_cases(run: Run, n: int):
+    """Programs mixing the shipped opset modules (functions, control flow, inlined older models): nodes get converted, so the
+    emitted model is not predicted exactly; these cases are judged by the direct oracle (checker, strict inference, ORT, walker)."""
+    import random
+    import warnings
+    from harness import c09
+
+    out = []
+    for _ in range(n):
+        seed = run.rng.randrange(10 ** 9)
+        try:
+            g = c09.GenM(random.Random(seed), random.Random(seed * 7919 + 1), True, leak_p=0.0, max_depth=2)
+            with warnings.catch_warnings():
+                warnings.simplefilter("ignore")
+                ins, outs = g.program()
+        except Exception:  # noqa: BLE001
+            continue
+        c = B.Case(ins, outs, False, {"names": "mixed-opsets", "recipe_seed": seed})
+        out.append(c)
+    return out
+
+
 def run(run: Run) -> int:
     run.check_theorems(PROPS, CONE, thorough_coqchk=(run.tier == "thorough"))
     n = 300 if run.tier == "quick" else 4000
     cases, hist = gen_cases(run, n)
+    mixed = mixed_cases(run, n // 4)
+    for c in mixed:
+        B.run_impl(c)
+        c.coq = None
+    cases = cases + mixed
     mism = B.correspondence(run, "c02", cases)
     outcome_hist = collections.Counter()
     distinct = set()
